@@ -30,7 +30,7 @@ CHECKS = {
         technique=AI + " composed with flag-setter summaries; per-class evaluation of the handlers' product tests; oracle: iced-x86 rflags tables"),
     "C03": dict(category="other", design_ref="§5 C03",
         text=("Every implemented, decoder-producible Jcc handler is interpreted under all 64 CF/PF/AF/ZF/SF/OF classes and must store "
-              "RIP exactly under the architectural condition; JRCXZ/JECXZ guards; provenance of the value stored to RIP; emptiness of "
+              "RIP exactly under the architectural condition; JRCXZ/JECXZ per representative value of RCX (zero, half-zero, single bits); provenance of the value stored to RIP; emptiness of "
               "the not-taken path; `RIP := next_ip` dominating dispatch in step; the frozen set of branch forms. Exhaustive over the "
               "finite flag domain; guest values stay symbolic."),
         technique="abstract interpretation of MIR per flag class (64 x handler) + dominators on the step coroutine; oracle: iced-x86 condition codes"),
@@ -55,8 +55,8 @@ CHECKS = {
         technique=AI + " with fault-forking accessor summaries and a comparison oracle per quotient / residue class; exhaustive shift-count sweep"),
     "C07": dict(category="proof", design_ref="§5 C07",
         text=("For each of the 8 GPR accessors and each of the 68 register views (+RIP) the stored / returned word is computed as a bit "
-              "provenance vector over (old parent value, argument) and must equal the architectural vector; the range guard precedes the "
-              "single insert; out-of-range values and wrong-width registers (all 86 variants x 8 accessors) end in a by-design rejection "
+              "provenance vector over (old parent value, argument) and must equal the architectural vector (on paths that store nothing: the entry value, modulo the bit equalities the "
+              "path established); the range guard precedes the store; out-of-range values and wrong-width registers (all 86 variants x 8 accessors) end in a by-design rejection "
               "without any store; the lazy_static register tables and both From impls are evaluated from MIR and compared with iced's "
               "register table. Every obligation is discharged by exhaustive enumeration of a finite domain; HashMap semantics are trusted."),
         technique="bit-provenance abstract interpretation (A6) of the accessors' MIR over all registers; table evaluation of lazy_static initialisers"),
@@ -77,11 +77,13 @@ CHECKS = {
         technique="abstract interpretation per permission mask (A4) + who-may-touch over resolved MIR places (A1) + must-pass-through on the loader CFG"),
     "C10": dict(category="other", design_ref="§5 C10",
         text=("Order-type enumeration over (new.start, new.end, old.start, old.end): creation passes only disjoint requests, resize "
-              "passes exactly the disjoint ones and never rejects the area itself; only lifecycle functions mutate the area list; the "
+              "passes exactly the disjoint ones and never rejects the area itself; the same over exact one- and two-area lists walked in "
+              "order from every public function that reaches an area-adding function (a colliding area is found wherever it sits; the "
+              "empty twin of an area is never grown over it); a search for a free range gives up only after a probe; only lifecycle functions mutate the area list; the "
               "retry loops have a strictly progressing variant; per size class (new <, =, > old) a successful resize changes exactly one "
               "area to old[..min] ++ zeros with length = requested size, a refused resize changes nothing; 'anywhere' allocators "
               "return the start they created."),
-        technique="order-type enumeration (A7) over MIR interpretation; byte-sequence normal forms for the resize; loop-variant argument on paths (A12); who-may-write (A1)"),
+        technique="order-type enumeration (A7) over MIR interpretation, single generic area and exact short lists; byte-sequence normal forms for the resize; loop-variant argument on paths (A12); who-may-write (A1)"),
     "C11": dict(category="other", design_ref="§5 C11",
         text=("The step coroutine is interpreted with decode/dispatch/hooks as primitives (all paths): finished/limit guards precede any "
               "effect, proceed <=> count < limit (3 orderings), exactly one count increment after dispatch on continuing paths, "
@@ -108,7 +110,7 @@ CHECKS = {
               "byte vectors (segment normal forms): read (per class count <, =, > available) delivers B[..m], leaves B[m..] under the "
               "same key and returns m; write leaves B ++ guest bytes (or the guest bytes) under write_ends[fd] and returns count; "
               "pipe() creates inverse end entries, an empty buffer and hands [R, W] to the guest; a failing guest memory access leaves "
-              "every map entry as it was; other syscalls / descriptors are left "
+              "every map entry as it was; a zero-length transfer changes nothing; other syscalls / descriptors are left "
               "Unhandled with nothing touched. FIFO order over interleavings follows by induction, which is not mechanised."),
         technique=AI + " of the hook closures over abstract maps and byte-sequence normal forms, with a comparison oracle per count class"),
     "C15": dict(category="other", design_ref="§5 C15",
@@ -128,7 +130,8 @@ CHECKS = {
     "C17": dict(category="other", design_ref="§5 C17",
         text=("Layout order argc, argv*, 0, envp*, 0; NUL-terminated copies through the allocator; alignment test before the RSP "
               "store; slot convention and space below RSP by affine comparison (two known findings inherited from C04); an occupied "
-              "candidate address never aborts the initialisation. "
+              "candidate address never aborts the initialisation; the searches for the string areas and the stack area give up only "
+              "after a probe. The layout rules apply to frames built by pushing to a vector (undecided otherwise). "
               "Success for every list length is declined."),
         technique=AI + " with precise loop unrolling before widening + affine normal form"),
     "C18": dict(category="other", design_ref="§5 C18",
@@ -149,7 +152,8 @@ CHECKS = {
     "C20": dict(category="other", design_ref="§5 C20",
         text=("No nondeterminism source other than the documented ones can reach state, traces or error texts: callers of rand are "
               "exactly the two seeding functions (feeding only registers/xmm_registers, called only by the constructor) and the pipe() "
-              "hook; RandomState map iteration only in the debug renderers, outside the observable cone; no time/env/pid/address source; "
+              "hook; RandomState map iteration only in the debug renderers, outside the observable cone (which follows formatting arguments to "
+              "the crate's own fmt impls); no time/env/pid/address source; "
               "every handler reads only its operands and architecturally implicit registers, step and the cone that builds error texts "
               "and traces read only RIP. "
               "Equality of two whole runs is declined."),
